@@ -298,7 +298,7 @@ def spell(rng, toks, ws=0.25):
             fuse = (prev[-1:] + t[:1]) in MERGE or ((prev[-1:].isalnum() or prev[-1:] == "_") and (t[:1].isalnum() or t[:1] == "_")) \
                 or (prev[-1:] == "-")
             if fuse or rng.random() < ws:
-                out.append(rng.choice([" ", " ", " ", "  ", "\n", "\t"]) if rng.random() < 0.1 else " ")
+                out.append(rng.choice([" ", " ", "  ", "\n", "\t", "\r", "\r\n"]) if rng.random() < 0.1 else " ")
         out.append(t)
     return "".join(out)
 
@@ -331,7 +331,7 @@ def token_soup(rng):
     return [rng.choice(ALL_TOKS) for _ in range(rng.randrange(1, 9))]
 
 
-CHARS = list("ab_0123456789-.*[]?|&!<>=@(){},:\"'`\\ \n\t") + ["é", "😀", "\u0001", "²", "٣", " ", "u", "d", "8", "f", "e", "+"]
+CHARS = list("ab_0123456789-.*[]?|&!<>=@(){},:\"'`\\ \n\t\r") + ["é", "😀", "\u0001", "²", "٣", " ", "u", "d", "8", "f", "e", "+"]
 
 
 def char_soup(rng):
